@@ -61,6 +61,23 @@ def seeded_cases(ck, n_walk, n_big, start_id):
             ks = sorted({0, p - 1, p // 2, 2 ** 31, 2 ** 32 + 1} | {rng.randrange(p) for _ in range(8)})
             cid += 1
             cases.append(dict(id=cid, cfg=rng.choice(["wide_sz", "wide_i64"]), shape=shape, kds=[dig(k) for k in ks if k < p]))
+    # fixed-length containers of 32-bit elements: every stride fits the element type (trailing product < 2^31), the size does not
+    for _ in range(max(4, n_big // 4)):
+        while True:
+            d = rng.randint(3, 5)
+            tail = []; rem = 2 ** 31 - 1
+            for i in range(d - 1):
+                e = rng.randint(2, max(2, min(32767, int(rem ** (1.0 / (d - 1 - i)))))); tail.append(e); rem = max(1, rem // e)
+            tp = 1
+            for x in tail: tp *= x
+            lo = (2 ** 32) // tp + 1; hi = min(32767, (2 ** 34) // tp + 2)
+            if tp < 2 ** 31 and lo <= hi: break
+        first = rng.randint(lo, hi)
+        shape = [first] + tail
+        p = first * tp
+        ks = sorted({0, p - 1, p // 2, 2 ** 31, 2 ** 32, 2 ** 32 + 1, tp * (first - 1)} | {rng.randrange(p) for _ in range(8)})
+        cid += 1
+        cases.append(dict(id=cid, cfg=rng.choice(["wide_arr_u32", "wide_arr_i32"]), shape=shape, kds=[dig(k) for k in ks if k < p]))
     return cases
 
 
@@ -96,7 +113,7 @@ def run(tier, seed):
     nontriv = {canon(c["shape"]) for c in cases if len(c["shape"]) >= 2 and sum(1 for x in c["shape"] if x > 1) >= 2}
     ck.nontrivial_count = len(nontriv)
     ck.rule = ("cases = every shape of the model-checked scope (TLC export of MC_Layout's shape set) under every run-time index container kind, "
-               "plus seeded larger shapes (complete walks with products <= 4000; index-math-only samples with products up to 2^30 in size_t/int64/uint32/int32, up to 2^31-1 in size_t/int64, and 2^33 .. 2^58 in size_t/int64 with wide values as base-2^15 digit lists "
+               "plus seeded larger shapes (complete walks with products <= 4000; index-math-only samples with products up to 2^30 in size_t/int64/uint32/int32, up to 2^31-1 in size_t/int64, and 2^33 .. 2^58 in size_t/int64 with wide values as base-2^15 digit lists, sizes 2^32 .. 2^34 in fixed-length containers of 32-bit elements whose strides still fit "
                "checked by TraceLayout's multi-digit arithmetic); "
                "non-trivial = distinct shapes with at least two extents > 1 (where stride order matters)")
     ck.exhaustive = True
